@@ -10,14 +10,27 @@
 From Coq Require Import NArith List Bool Lia Arith ZifyBool ZifyN ZifyNat Permutation.
 Import ListNotations.
 Require Import SR.Base.Res SR.Gen.ClausesParams SR.Spec.Clauses SR.Model.Clauses.
+(* The definitions of this development that occur in theorem statements (Props/) live in Spec/ClausesWf.v (audit item G1).
+   The abbreviations keep the qualified names ClausesP.name of other files resolving; they are parsing-only aliases. *)
+Require Export SR.Spec.ClausesWf.
+Notation kwc := SR.Spec.ClausesWf.kwc (only parsing).
+Notation sepc := SR.Spec.ClausesWf.sepc (only parsing).
+Notation kword := SR.Spec.ClausesWf.kword (only parsing).
+Notation follow := SR.Spec.ClausesWf.follow (only parsing).
+Notation nsp := SR.Spec.ClausesWf.nsp (only parsing).
+Notation sepstr := SR.Spec.ClausesWf.sepstr (only parsing).
+Notation lookahead_words := SR.Spec.ClausesWf.lookahead_words (only parsing).
+Notation clean_next := SR.Spec.ClausesWf.clean_next (only parsing).
+Notation tail_ok := SR.Spec.ClausesWf.tail_ok (only parsing).
+Notation keyword_alts := SR.Spec.ClausesWf.keyword_alts (only parsing).
+Notation code_key := SR.Spec.ClausesWf.code_key (only parsing).
+Notation gmap := SR.Spec.ClausesWf.gmap (only parsing).
+Notation record_of := SR.Spec.ClausesWf.record_of (only parsing).
+Notation result_for := SR.Spec.ClausesWf.result_for (only parsing).
+Notation codes := SR.Spec.ClausesWf.codes (only parsing).
 Open Scope N_scope.
 
 (* ================================================================ 1. characters *)
-
-(* the characters of the pattern's literals *)
-Definition kwc (c : N) : bool := is_upper_letter c || is_digit c || (c =? 45).
-(* the characters of the printer's separators *)
-Definition sepc (c : N) : bool := is_blank c || s_mem c [44; 59].
 
 Lemma sepc_cases c : sepc c = true -> c = 32 \/ c = 9 \/ c = 10 \/ c = 13 \/ c = 44 \/ c = 59.
 Proof. unfold sepc, is_blank, s_mem, existsb. lia. Qed.
@@ -126,13 +139,6 @@ Qed.
 
 (* ================================================================ 2. tokens *)
 
-Definition kword (w : str) : bool := forallb kwc w.
-
-(* what follows a token: nothing, or a separator character *)
-Definition follow (rest : list N) : Prop := rest = [] \/ exists c t, rest = c :: t /\ sepc c = true.
-(* what follows a separator: nothing, or a character that is not of the SPACE class *)
-Definition nsp (rest : list N) : Prop := rest = [] \/ exists c t, rest = c :: t /\ is_sp c = false.
-
 Lemma lit_nil_rest w : w <> [] -> lit w [] = None.
 Proof. destruct w; [congruence|reflexivity]. Qed.
 
@@ -211,9 +217,6 @@ Qed.
 
 Lemma plus_bt_fail {R} p c t (k : list N -> option R) : p c = false -> plus_bt p (c :: t) k = None.
 Proof. intros F. cbn [plus_bt]. rewrite F. reflexivity. Qed.
-
-(* separators *)
-Definition sepstr (s : str) : Prop := s <> [] /\ forallb sepc s = true.
 
 Lemma all_blank_sepc s : all_blank s = true -> forallb sepc s = true.
 Proof.
@@ -345,13 +348,6 @@ Proof.
 Qed.
 
 (* ---- what may follow a clause ---- *)
-Definition lookahead_words : list str :=
-  [W_ASCENDING; W_DESCENDING; W_INDEXED; W_TIMES; W_TO; W_DEPENDING; W_RIGHT; W_LEFT; W_CHARACTER].
-
-Definition clean_next (r : list N) : Prop := forall w, In w lookahead_words -> lit w r = None.
-
-Definition tail_ok (rest : list N) : Prop :=
-  rest = [] \/ exists s r, rest = s ++ r /\ sepstr s /\ nsp r /\ clean_next r.
 
 Lemma clean_next_nil : clean_next [].
 Proof. intros w H. apply lit_nil_rest. unfold lookahead_words in H. cbn [In] in H. intuition (subst; discriminate). Qed.
@@ -464,8 +460,6 @@ Proof.
   rewrite (word_sp_first_ne x2 w2 c t H2). reflexivity.
 Qed.
 
-Definition keyword_alts : list N := [0; 1; 2; 3; 4; 5; 6; 7; 8; 9; 10; 11; 12; 13].
-
 Lemma alt_first id c t : In id keyword_alts -> is_sp c = false -> firsts id (up c) = false -> alt id (c :: t) = ANo.
 Proof.
   intros C S F. unfold keyword_alts in C. cbn [In] in C.
@@ -502,10 +496,6 @@ Qed.
 (* skip the alternatives that cannot start with the first letter of the printed word *)
 Ltac skip_alts :=
   repeat (rewrite try_alts_no by (apply alt_first_kw; [unfold keyword_alts; cbn [In]; tauto|reflexivity|reflexivity])).
-
-(* from the specification's key numbers to the model's keys *)
-Definition code_key (c : N) : key := nth (N.to_nat c) all_keys KName.
-Definition gmap (d : dict) : groups := map (fun kv => (code_key (fst kv), snd kv)) d.
 
 Ltac kwlit := rewrite lit_cased by reflexivity.
 Ltac assoc := rewrite <- ?app_assoc.
@@ -1642,21 +1632,6 @@ Proof.
 Qed.
 
 (* ================================================================ the theorems *)
-Definition record_of (d : dict) (parsed : option (list SR.Model.Picture.elt)) : clause_record :=
-  {| cr_dict := gmap d; cr_parsed := parsed |}.
-
-(* what clause_dict returns when the recogniser delivers the dictionary d: the picture, when there is one, goes through
-   cobol_parser.normalize_picture (Model/Picture.v gen_normalize), whose exceptions pass through *)
-Definition result_for (d : dict) : option (res clause_record) :=
-  match lookup 7 d with
-  | None => Some (Ok (record_of d None))
-  | Some p =>
-      match SR.Model.Picture.gen_normalize p with
-      | None => None
-      | Some (Err e) => Some (Err e)
-      | Some (Ok es) => Some (Ok (record_of d (Some es)))
-      end
-  end.
 
 Theorem clause_dict_printer : forall cs sps, printable cs sps = true ->
   clause_dict (print_items cs sps) = result_for (expected cs sps).
@@ -1759,9 +1734,6 @@ Qed.
 
 Theorem expected_content : forall cs sps, items_ok cs sps = true -> normal (expected cs sps) = abstract cs.
 Proof. intros cs sps I. unfold expected, abstract. rewrite normal_sorted, (normal_all cs sps I). reflexivity. Qed.
-
-(* the specification's key numbers of a model dictionary *)
-Definition codes (g : groups) : dict := map (fun kv => (key_code (fst kv), snd kv)) g.
 
 Lemma codes_gmap d : codes_ok d -> codes (gmap d) = d.
 Proof.
